@@ -39,3 +39,63 @@ where
 {
     IntOrString::deserialize(deserializer).map(String::from)
 }
+
+/// Types an `ID` field can have once list and non-null modifiers are applied:
+/// `String`, and `Option` / `Vec` nestings of it.
+pub trait IdContainer: Sized {
+    /// Deserialize `Self`, accepting a String or an Integer wherever an ID is expected.
+    fn deserialize_ids<'de, D>(deserializer: D) -> Result<Self, D::Error>
+    where
+        D: Deserializer<'de>;
+}
+
+impl IdContainer for String {
+    fn deserialize_ids<'de, D>(deserializer: D) -> Result<Self, D::Error>
+    where
+        D: Deserializer<'de>,
+    {
+        deserialize_id(deserializer)
+    }
+}
+
+struct IdWrapper<T>(T);
+
+impl<'de, T: IdContainer> Deserialize<'de> for IdWrapper<T> {
+    fn deserialize<D>(deserializer: D) -> Result<Self, D::Error>
+    where
+        D: Deserializer<'de>,
+    {
+        T::deserialize_ids(deserializer).map(IdWrapper)
+    }
+}
+
+impl<T: IdContainer> IdContainer for Option<T> {
+    fn deserialize_ids<'de, D>(deserializer: D) -> Result<Self, D::Error>
+    where
+        D: Deserializer<'de>,
+    {
+        Option::<IdWrapper<T>>::deserialize(deserializer).map(|opt| opt.map(|wrapper| wrapper.0))
+    }
+}
+
+impl<T: IdContainer> IdContainer for Vec<T> {
+    fn deserialize_ids<'de, D>(deserializer: D) -> Result<Self, D::Error>
+    where
+        D: Deserializer<'de>,
+    {
+        Vec::<IdWrapper<T>>::deserialize(deserializer)
+            .map(|items| items.into_iter().map(|wrapper| wrapper.0).collect())
+    }
+}
+
+/// Deserialize a list of IDs (at any list / non-null nesting) where each ID is given
+/// either as a String or as an Integer.
+///
+/// This is used by the codegen for `ID` fields with a list type.
+pub fn deserialize_id_list<'de, D, T>(deserializer: D) -> Result<T, D::Error>
+where
+    D: Deserializer<'de>,
+    T: IdContainer,
+{
+    T::deserialize_ids(deserializer)
+}
